@@ -91,6 +91,19 @@ func (st Strat) GenConfig(t *rapid.T) reg.Config {
 	return c
 }
 
+// GenConfigAny is GenConfig without the documented ordering constraints in a quarter of the draws
+// (for the properties that quantify over all configurations).
+func (st Strat) GenConfigAny(t *rapid.T) reg.Config {
+	if st.Fix == nil || rapid.IntRange(0, 3).Draw(t, "unordered") != 0 {
+		return st.GenConfig(t)
+	}
+	fix := st.Fix
+	st.Fix = nil
+	c := st.GenConfig(t)
+	st.Fix = fix
+	return c
+}
+
 // DefaultConfig is the configuration of the plain constructor.
 func (st Strat) DefaultConfig() reg.Config {
 	c := reg.Config{}
